@@ -318,7 +318,27 @@ def r5_collection(chk: Check):
         chk.require(inlined_values or "ignored" not in src(xv.node), chk.fkey(xv, "no ignored filter"), "xpmvalues() filters ignored arguments: Meta/Option parameters holding task outputs would not be waited for", chk.loc(xv.module, xv.node))
 
 
+def duplicate_refers_to_submitted_job(chk: Check):
+    """A task equal to one already submitted is not scheduled; it must then stand for the job that is: its job and producing task are those of
+    the first submission, so that a task taking it as a parameter waits for that job"""
+    tree = chk.tree
+    sub = tree.func("core.objects", "ConfigInformation.submit")
+    g = CFG(sub.node)
+    tests = [t for t in g.live if t.kind == "test" and src(t.ast) == "other"]
+    chk.min_instances(len(tests), 1, "`already submitted` test in ConfigInformation.submit")
+    for t in tests:
+        tb = [b for b, l in t.succ if l is True]
+        rets = [n for n in g.live if n.kind == "stmt" and isinstance(n.ast, ast.Return) and any(g.dominates(b, n) for b in tb)]
+        jobst = [n for n in g.live if n.kind == "stmt" and isinstance(n.ast, ast.Assign) and src(n.ast.targets[0]) == "self.job" and src(n.ast.value) == "other"]
+        taskst = [n for n in g.live if n.kind == "stmt" and isinstance(n.ast, ast.Assign) and any(src(x) == "self.task" for x in n.ast.targets) and "other.config" in src(n.ast.value)]
+        ok = bool(rets) and all(any(g.dominates(s_, r) for s_ in jobst) and any(g.dominates(s_, r) for s_ in taskst) for r in rets)
+        chk.require(ok, chk.fkey(sub, "duplicate stands for the submitted job"),
+                    "the `already submitted` branch returns without making this task refer to the job and the task that were submitted first: used as a parameter it creates no "
+                    "dependency and the downstream job starts before the upstream one has ended", chk.loc(sub.module, t.ast))
+
+
 def outputs_linked_to_producer(chk: Check):
+    duplicate_refers_to_submitted_job(chk)
     """what a task returns to the experiment plan carries a link to the task: that link is what updatedependencies() follows"""
     tree = chk.tree
     mo = tree.func("core.objects", "ConfigInformation.mark_output")
@@ -333,11 +353,14 @@ def outputs_linked_to_producer(chk: Check):
     g = CFG(sub.node)
     rd = ReachingDefs(g)
     loc = chk.loc(sub.module, sub.node)
+    # (the `already submitted` branch, which makes this task stand for the first submission, is examined by duplicate_refers_to_submitted_job)
+    dup = [b for t in g.live if t.kind == "test" and src(t.ast) == "other" for b, l in t.succ if l is True]
+    in_dup = lambda n: any(g.dominates(b, n) for b in dup)
     stores = [n for n in g.live if n.kind == "stmt" and isinstance(n.ast, ast.Assign) and any(src(t) == "self.task" for t in n.ast.targets) and rd.canon(n.ast.value, n) == "self.pyobject"]
-    finals = [n for n in g.live if n.kind == "stmt" and isinstance(n.ast, ast.Return) and n.ast.value is not None and rd.canon(n.ast.value, n) in ("self._taskoutput", "self.pyobject")]
+    finals = [n for n in g.live if n.kind == "stmt" and isinstance(n.ast, ast.Return) and n.ast.value is not None and rd.canon(n.ast.value, n) in ("self._taskoutput", "self.pyobject") and not in_dup(n)]
     chk.require(bool(finals) and bool(stores) and all(g.on_every_path(stores, end=r) for r in finals), chk.fkey(sub, "task marks itself"),
                 "submit must record the task as its own producer (`self.task = self.pyobject`) on every path that returns the task output", loc)
-    outs = [n for n in g.live if n.kind == "stmt" and isinstance(n.ast, ast.Assign) and any(src(t) == "self._taskoutput" for t in n.ast.targets)]
+    outs = [n for n in g.live if n.kind == "stmt" and isinstance(n.ast, ast.Assign) and any(src(t) == "self._taskoutput" for t in n.ast.targets) and not in_dup(n)]
     ok = bool(outs)
     for n in outs:
         v = n.ast.value
